@@ -8,6 +8,7 @@ pub mod c01;
 pub mod c04;
 pub mod c11;
 pub mod c15;
+pub mod c20;
 pub mod history;
 
 pub struct Meta {
@@ -54,6 +55,7 @@ macro_rules! simple_checks {
 simple_checks! {
     "C11" => c11,
     "C15" => c15,
+    "C20" => c20,
 }
 
 pub fn default_assumptions() -> Vec<String> {
